@@ -524,6 +524,10 @@ func (g *gen) step(prop string) []CStep {
 			return []CStep{CStep{Op: "occupycycle", A: r.Intn(8), N: r.Intn(6), B: r.Intn(1000)}}
 		}
 		if r.Chance(0.02) {
+			// an appchain's admin is replaced through two approved updates; the former admin then tries the chain admin's operations
+			return []CStep{CStep{Op: "adminswap", A: r.Intn(3), N: r.Intn(64), B: r.Intn(6)}}
+		}
+		if r.Chance(0.02) {
 			// a module's voting strategy is switched while one of its proposals is open; the outsider then calls the proposal callbacks
 			return []CStep{CStep{Op: "zeroswitch", A: r.Intn(8), N: r.Intn(10), B: r.Intn(1000)}}
 		}
